@@ -34,6 +34,11 @@ def name_docs(nm):
         {other: leaf(), nm: "str", "n": 0},
         # colliding flavour: equal values at different places
         {nm: [0], other: [0], "x": {nm: [0]}},
+        # strings between the containers of an array (descent must count them), deeper than the array is long for slices
+        ["s", {nm: leaf()}, "t", [leaf(), "u", {nm: leaf()}]],
+        # a member whose value is its own name without the first character (what the '~name' / '#name' pointer
+        # extensions would produce), and one whose value is its own name
+        {nm: nm[1:], other: nm, "w": {nm: nm[1:]}},
     ]
 
 
@@ -45,6 +50,8 @@ def name_queries(nm):
         Q(C(F(("test", at)))), Q(D(F(("test", at)))), Q(C(N(nm))), Q(D(N(nm))), Q(C(N(nm)), C(N(nm))),
         Q(C(N(nm)), C(N(other))), Q(C(W), C(I(-1))), Q(C(N(nm), N(other))), Q(D(I(0), N(nm))), Q(),
         Q(C(N(nm)), C(S(0, None, None))), Q(C(I(0)), C(N(nm))), Q(C(I(1))), Q(C(W), C(I(1), I(-2))),
+        # slices whose bounds lie outside the array on either side
+        Q(D(S(-9, None, None))), Q(D(S(-5, 2, None))), Q(D(S(9, None, -1))), Q(D(S(None, -9, -1))), Q(D(S(1, 9, 2))),
     ]
 
 
@@ -62,6 +69,8 @@ def index_docs():
         # members whose names are another member's name behind the non-standard '~' / '#' pointer prefixes
         {"~a": leaf(), "a": leaf(), "#a": leaf(), "~0": {"x": leaf()}, "0": {"x": leaf()}},
         {"#": leaf(), "~": leaf(), "": leaf(), "#1": [leaf()], "1": [leaf()], "~~a": leaf()},
+        {"#a": "a", "~": "", "#1": "1", "~0": "0", "#": "", "~b": "b"},
+        ["s", [leaf(), "t", [leaf()]], "u", {"0": "v", "1": [leaf()]}],
     ]
 
 
@@ -69,4 +78,5 @@ def index_queries():
     at = Q(root="@")
     return [Q(C(I(1))), Q(C(I(-1))), Q(C(I(0))), Q(D(I(1))), Q(D(I(-1))), Q(C(W), C(I(1))), Q(D(W)),
             Q(C(N("a")), C(I(1))), Q(C(I(1)), C(I(1))), Q(D(I(0), I(1))), Q(D(F(("test", at)))),
-            Q(C(N("1")), C(I(-1)), C(I(0))), Q(D(S(None, None, -1)))]
+            Q(C(N("1")), C(I(-1)), C(I(0))), Q(D(S(None, None, -1))), Q(D(S(-9, None, None))), Q(D(S(-5, 2, None))),
+            Q(D(S(9, None, -1))), Q(D(S(None, -9, -2)))]
